@@ -799,6 +799,71 @@ func (in *inst) roundTrip(lst, src string, w []byte, wait time.Duration, hdr map
 	return nil, 0, fmt.Errorf("unknown listener %s", lst)
 }
 
+// sendQuicSeries sends the queries one after the other on ONE DoQ connection, each on its own stream; the FIN of
+// a query's stream is sent a moment after the query octets (in a frame of its own), as a client may do. More
+// queries than the listener's stream limit (100) must all be answered: finished streams give their credit back.
+func (in *inst) sendQuicSeries(qs []qspec, wait time.Duration) {
+	srcA := netip.MustParseAddr("127.0.0.1")
+	qns := make([]int, len(qs))
+	for i, q := range qs {
+		qns[i] = int(qnCtr.Add(1))
+		w := q.wire()
+		in.tr.Emit("cl.send", "qn", qns[i], "lst", "quic", "src", addrJS(srcA), "id", int(q.id), "qr", q.qr, "opcode", q.opcode, "rd", q.rd,
+			"nq", q.nq, "name", labelsJS(q.name), "cls", int(q.cls), "typ", int(q.typ), "opt", q.opt, "optsize", int(q.effSize()), "optopts", q.optopts, "len", len(w), "mayrefuse", false)
+	}
+	done := 0
+	fail := func(e string) {
+		for i := done; i < len(qs); i++ {
+			in.tr.Emit("cl.none", "qn", qns[i], "lst", "quic", "http", 0, "err", e)
+		}
+	}
+	uc, err := net.ListenUDP("udp", &net.UDPAddr{IP: net.IPv4(127, 0, 0, 1)})
+	if err != nil {
+		fail(err.Error())
+		return
+	}
+	defer uc.Close()
+	qt := &quic.Transport{Conn: uc}
+	defer qt.Close()
+	dctx, dcancel := context.WithTimeout(context.Background(), 3*time.Second)
+	defer dcancel()
+	c, err := qt.Dial(dctx, &net.UDPAddr{IP: net.IPv4(127, 0, 0, 1), Port: in.ports["quic"]}, &tls.Config{InsecureSkipVerify: true, NextProtos: []string{"doq"}}, &quic.Config{})
+	if err != nil {
+		fail(err.Error())
+		return
+	}
+	defer c.CloseWithError(0, "")
+	for i, q := range qs {
+		ctx, cancel := context.WithTimeout(context.Background(), wait)
+		st, err := c.OpenStreamSync(ctx)
+		cancel()
+		if err != nil {
+			fail("open stream: " + err.Error())
+			return
+		}
+		w := q.wire()
+		f := make([]byte, 2+len(w))
+		binary.BigEndian.PutUint16(f, uint16(len(w)))
+		copy(f[2:], w)
+		st.Write(f)
+		time.Sleep(2 * time.Millisecond)
+		st.Close()
+		st.SetReadDeadline(time.Now().Add(wait))
+		h := make([]byte, 2)
+		if _, err := io.ReadFull(st, h); err != nil {
+			fail("read: " + err.Error())
+			return
+		}
+		b := make([]byte, binary.BigEndian.Uint16(h))
+		if _, err := io.ReadFull(st, b); err != nil {
+			fail("read: " + err.Error())
+			return
+		}
+		in.logRecv(qns[i], "quic", 0, b)
+		done = i + 1
+	}
+}
+
 // sendFromPort0 delivers w to the UDP listener in a datagram whose source port is 0 (raw socket): the proxy
 // cannot answer it (sendmsg fails), which must not affect the queries that follow. Returns false when the
 // sandbox does not allow raw sockets.
